@@ -78,6 +78,7 @@ class C09(Check):
         "haplotype by input-name prefix (unpainted: required; painted or mixed-origin: allowed); else primary. Absent scaffolds: Contaminant in Target "
         "mode, else haplotype by name prefix, else primary. Runs ending in TaggingError/ChrNamerError are 'did not complete'. "
         "non-trivial = completed case with at least one core routed to a non-primary assembly"
+        " Scaffold-level tags on every piece or on the first piece only; four-field names (hap2_scaffold_2_1); all sequence of one haplotype must sit under one identical assembly key; CLI family with two haplotypes, Primary mode and joined contaminants (file must exist for a tagged whole-scaffold piece)."
     )
     assumptions = [
         "haplotype-by-name clause evaluated with FASTA naming only (contig name == scaffold name)",
